@@ -106,7 +106,12 @@ func ruleDecoderBounds(c *Ctx, r *Report, prefix string) {
 		o.rel("writeMatch-dist-window", dist, roleCallTo(dictLen), token.GTR, "match distance > bytes in the dictionary (dictLen())")
 		o.rel("writeMatch-length-positive", length, roleConst(0), token.LEQ, "match length <= 0")
 		o.rel("writeMatch-length-max", length, roleConst(273), token.GTR, "match length > 273")
-		g := o.rel("writeMatch-space", length, roleCallTo(avail), token.GTR, "match length > free space of the window")
+		// d.buf.Available(), or the dictionary's own getter that returns it
+		availRole := roleCallTo(avail)
+		if dAvail := c.funcQuiet("lzma", "decoderDict.Available"); dAvail != nil && returnsCallTo(dAvail, avail) {
+			availRole = roleOr(roleCallTo(avail), roleCallTo(dAvail))
+		}
+		g := o.rel("writeMatch-space", length, availRole, token.GTR, "match length > free space of the window")
 		// all guards dominate the copy loop (the first buffer.Write call)
 		if g != nil {
 			bw := c.Func("lzma", "buffer.Write")
@@ -431,4 +436,25 @@ func isDictCapParamField(v ssa.Value, fn *ssa.Function) bool {
 		}
 	}
 	return false
+}
+
+// returnsCallTo: every return of fn is the result of a call to callee (a plain forwarding getter).
+func returnsCallTo(fn, callee *ssa.Function) bool {
+	n := 0
+	for _, b := range fn.Blocks {
+		if len(b.Instrs) == 0 {
+			continue
+		}
+		if ret, ok := b.Instrs[len(b.Instrs)-1].(*ssa.Return); ok {
+			if len(ret.Results) != 1 {
+				return false
+			}
+			cl, isC := stripConv(ret.Results[0]).(*ssa.Call)
+			if !isC || cl.Call.StaticCallee() != callee {
+				return false
+			}
+			n++
+		}
+	}
+	return n > 0
 }
